@@ -236,8 +236,6 @@ theorem c17_update_path_partial {root n : Tree} {p : Path} {calls : List Call} (
 /-- a sourced submodel `r` holding one collection `e0` -/
 def exUpd : Tree := .node .submodel "urn:s".toList (some ['r']) "vfa:one".toList [.node .collection [] (some "e0".toList) [] []]
 
-deriving instance DecidableEq for Except
-
 /-- negation of the full claim on a concrete tree: update() of the collection hands the backend the path ["r", "e0"]
     for store object = the submodel, and following that path from the submodel fails (KeyError: the submodel has no
     child "r"); no segment list resolves it -/
